@@ -1,28 +1,41 @@
 """
 C13 — no hidden state: results do not depend on what was processed before.
 
-Theorems: lean/BufrModel/Props/C13.lean over the model lean/BufrModel/Msg/Cache.lean (both caches are
-memo tables of pure functions with the code's eviction; history independence; a failing operation
-leaves an observationally equivalent state; wire-once) — histories of any length.
+Theorems:
+  * lean/BufrModel/Props/C13.lean over lean/BufrModel/Msg/Cache.lean (both caches are memo tables of pure functions with
+    the code's eviction; history independence; a failing operation leaves an observationally equivalent state; wire-once);
+  * lean/BufrModel/Props/C13Session.lean over lean/BufrModel/Msg/Session.lean: the SESSION model - cache limit, table-group
+    cache, per Decoder/Encoder object its compiled-template cache and the registers the last message left behind (also
+    after a failure at any stage), per renderer/querent object the scratch of its last call, the kept message objects with
+    their wire-once flag - refines the stateless specification for every list of operations (decode/encode ok or failing
+    at head / tables / template / compilation / data / wiring, wire, render/query through kept objects, release of objects,
+    invalidation, limit changes, direct table requests);
+  * lean/BufrModel/Props/C13Keyed.lean: a cache keyed by a function of the request is transparent IFF the key determines
+    the stored result; witness: marker descriptors cached without the table group (seeded/C13-2, seeded/C07-4).
 
-Tie (model <-> implementation), cache level: random get / invalidate / limit-change histories are run on
-the real `TableGroupCache` (fresh instance installed as `TableGroupCacheManager._TABLE_GROUP_CACHE`,
-`tables.MAXIMUM_NUMBER_OF_CACHED_TABLE_GROUPS` set through the module attribute) and on the real
-`CompiledTemplateManager`, and on the model's `tableGet` / `compiledGet` (driver op `cache`); the key lists
-(order = eviction order) and the outcome families are compared after every step, and every group /
-compiled template returned is compared with what loading / compiling its key from scratch gives.  The
-cache requests logged while the oracle's histories run (real decodes and encodes) are replayed on the
-model in the same way.
+Tie (model <-> implementation):
+  * cache level: random get / invalidate / limit-change histories on the real `TableGroupCache` and `CompiledTemplateManager`
+    and on the model's `tableGet` / `compiledGet` (driver op `cache`): key lists (eviction order) and outcome families after
+    every step, contents against a fresh load / compile; the cache requests logged during the oracle's histories likewise;
+  * session level (driver op `session`, which executes Session.step / pureOut / failStage): EVERY history of the oracle is
+    translated to the model's operations; after every operation the outcome class, the stage at which a decode/encode failed
+    (from instrumented stage events), the keys of the table-group cache and of every coder's compiled-template cache, and
+    the set of message objects held with their `_is_wired` flags are compared; the driver also checks run = specRun on it;
+  * the cross-version inputs (harness/xversion.py) are encoded and decoded with fresh objects and compared with the coder
+    model (`enc-data` / `dec-data`) under the tables each message names; a fresh interpreter must decode to the same.
 
-Oracle (implementation vs implementation; carries what the model cannot show: Python aliasing and
-mutation of shared cached descriptor objects): random histories of 20..200 operations — decode, decode of
-damaged bytes, encode from JSON, failing encode, multi-message scan, the four renderers, data queries,
-metadata queries, explicit wire(), table-group requests, cache invalidation, re-decoding the same bytes,
-re-rendering / re-querying the same message object — with Decoder/Encoder objects
-(compiled_template_cache_max in {None,0,1,2,50}) reused over the whole history and the table-group cache
-limit forced to 1, 2 or 3 (thorough: also the real 50 with 60 groups loaded).  Every output is compared with
-the output of the same operation as the FIRST operation of a fresh interpreter (one new process per
-distinct operation).  Table-definition messages (data category 11, prepbufr) are excluded.
+Oracle (implementation vs implementation; carries what the model cannot show: Python aliasing, object identity):
+histories on ONE reused Decoder / Encoder per configuration (compiled_template_cache_max in {None,0,1,2,50}), ONE kept
+renderer of each kind / DataQuerent / MetadataQuerent per slot, table-group cache limit 1/2/3 (50 with 60 groups loaded):
+  (b) random: decode, damaged decode, encode, failing encode, scan, four renderers, data / metadata queries, wire(), table
+      requests, invalidation, limit changes, re-decoding / re-rendering, release of objects (`drop`: gc.collect());
+  (c) cross-version: families derived MECHANICALLY from the bundled tables (elements / sequences whose definition differs
+      between two table groups: master versions and local tables) - the same template (marker operators over the bit-mapped
+      element, class 33 after 222000, 237000 chains, associated fields, 203/201/202/207/208, replication, sequences) under
+      2-3 table groups, decoded / encoded in changing order by the SAME coder object, rendered / queried by kept objects;
+  (d) stream: decode, render with kept renderers, query, DROP and collect, next message - so that id() values recur.
+Every output is compared with the output of the same operation as the FIRST operation of a fresh interpreter (one new
+process per distinct operation).  Table-definition messages (data category 11, prepbufr) are excluded.
 """
 import glob
 import hashlib
@@ -38,21 +51,37 @@ PROP = 'C13'
 OWN_CORPUS = True   # the histories of corpus/C13 are run by run() itself
 
 META = dict(
-    text='PARTIAL. Kernel-checked for histories of any length over the model of the process state (table-group cache with the '
-         'popitem eviction loop and any limit incl. 0/1, per-coder compiled-template cache with its limit, kept message objects, '
-         'wire-once flag; coder/compiler/wiring/renderers/queries abstract pure functions): both caches stay memo tables (every '
-         'entry = load/compile of its key, keys distinct, size <= limit), every operation returns after any history what it '
-         'returns first in a fresh process, a failing operation leaves an observationally equivalent state, wire() is idempotent. '
-         'The model is immutable by construction, so dependence through Python aliasing/mutation of the shared cached descriptor '
-         'objects cannot be exhibited by the theorems; that part is covered only by the differential oracle: random histories '
-         '(20..200 operations, ~45 messages using more table versions than the caches hold, cache limits 1/2/3/50, compiled cache '
-         'sizes None/0/1/2/50) whose every output is compared with the same operation run first in a fresh interpreter. '
-         'Cache-level correspondence: key lists (eviction order) and contents of the real TableGroupCache / CompiledTemplateManager '
-         'vs the model after every step, including the cache requests logged during the real decode histories.',
-    technique='Lean 4 theorems (invariant of reachable states + stateless reference semantics) + model/implementation correspondence '
-              'on cache histories + implementation-vs-fresh-interpreter differential oracle on operation histories',
+    text='PARTIAL. Kernel-checked for operation lists of any length: (1) Msg/Cache.lean: both caches stay memo tables (every entry = '
+         'load/compile of its key, keys distinct, size <= limit, any limit incl. 0/1), every operation returns what it returns '
+         'first in a fresh process, a failing operation leaves an observationally equivalent state, wire() is idempotent. '
+         '(2) Msg/Session.lean (C13_session_*): a state machine whose state holds the cache limit (module attribute, changeable), '
+         'the table-group cache, per Decoder/Encoder object its compiled-template cache AND the registers the last message left '
+         'behind (complete, or as they were where a failure left), per renderer/querent object the scratch of its last call, the '
+         'kept message objects with the wire-once flag; operations decode/encode (ok or failing at head/tables/template/'
+         'compilation/data/wiring), wire, render/query through a kept object, release of objects, invalidate, set limit, direct '
+         'table request. Proved by induction over arbitrary operation lists: the outputs equal those of a stateless specification '
+         '(refinement; the only thing threaded is the limit the caller set; hypothesis: the limit is not set to 0 in mid-session, '
+         'shown necessary on a witness); registers and scratch are never read; the failing stage is a function of the input; '
+         'frame of a failing decode. Leaky variants (no new register set / no reset()) are shown NOT to refine. '
+         '(3) C13_keyed_cache_transparent_iff: a cache keyed by key(request), any eviction, is unobservable IFF key determines '
+         'the stored result; negative direction proved on the witness of seeded/C13-2 / C07-4 (marker descriptor cached by '
+         '(operator, element id) without the table group: 022039 12 vs 13 bits). '
+         'The model is immutable, so dependence through Python aliasing / object identity (id() reuse after garbage collection, '
+         'mutation of shared cached descriptors) cannot be exhibited by theorems; that part is carried by the oracle: histories on '
+         'ONE reused Decoder/Encoder/renderer/querent per slot - random traffic, cross-version families derived mechanically from '
+         'the bundled tables (550 elements / 190 sequences defined differently in two of the 44 bundled table groups; marker '
+         'operators, class 33, associated fields, 203/201/202/207/208, replication, sequences), and stream conversion with released '
+         'objects and gc.collect() - every output compared with the same operation run first in a fresh interpreter. '
+         'Correspondence: cache level (key lists, contents) and session level (every oracle history replayed on Session.step: '
+         'outcome class, failing stage, both caches\' keys, kept objects and wired flags after every operation).',
+    technique='Lean 4 theorems (invariant of reachable states, refinement of a state machine to a stateless specification by '
+              'induction over operation lists, iff-characterisation of transparent keyed caches) + model/implementation '
+              'correspondence on cache and session histories + implementation-vs-fresh-interpreter differential oracle on '
+              'operation histories over mechanically derived cross-table-version inputs',
     note='Partial: Python object identity/aliasing is not modelled (DESIGN 4.3); the fresh-interpreter comparison is the only '
-         'evidence for that part. Table-definition messages and extra B/D entries are excluded (C20).',
+         'evidence for that part. Table-definition messages and extra B/D entries are excluded (C20). The session refinement '
+         'assumes the cache limit is never set to 0 in mid-session (with 0 the code raises KeyError on every miss while kept '
+         'objects stay usable: proved counterexample in Props/C13Session.lean).',
 )
 
 CFGS = [None, 0, 1, 2, 50]
@@ -119,8 +148,9 @@ def synth_json(ids, subsets, compressed, mtv=13):
     ]
 
 
-def build_pool():
-    """dict(msgs=[{name, cls, hex}], jsons=[{name, cls, text}], files=[{name, hex}], paths={msgname: [...]})"""
+def build_pool(ctx=None):
+    """dict(msgs=[{name, cls, hex}], jsons=[{name, cls, text}], files=[{name, hex}], paths={msgname: [...]},
+    xv=[{name, shape, E, msgs, jsons}], expect={msgname: observation of a fresh decode in this process})"""
     from pybufrkit.decoder import Decoder
     from pybufrkit.encoder import Encoder
     ddir = os.path.join(core.REPO, 'tests', 'data')
@@ -204,6 +234,10 @@ def build_pool():
                 jsons.append({'name': fn + '!short', 'cls': 'damaged', 'text': json.dumps(jj)})
             except Exception:
                 pass
+    # cross-version families: the same template under table groups that define one of its descriptors differently
+    xv, expect = [], {}
+    if ctx is not None:
+        xv, expect = build_xv(ctx, msgs, jsons)
     # candidate query paths per message
     paths = {}
     dec = Decoder()
@@ -238,7 +272,62 @@ def build_pool():
         ps.append('/999999')
         ps.append('@[7]/001001')
         paths[m['name']] = ps
-    return {'msgs': msgs, 'jsons': jsons, 'files': files, 'paths': paths}
+    return {'msgs': msgs, 'jsons': jsons, 'files': files, 'paths': paths, 'xv': xv, 'expect': expect}
+
+
+def build_xv(ctx, msgs, jsons):
+    """Families of harness/xversion.py (derived mechanically from the bundled tables) appended to the pool.  Every member
+    was encoded and decoded with FRESH objects and compared with the model under the tables its section 1 names; the
+    observation of that fresh decode is kept as `expect` and must be what a fresh interpreter gives as well."""
+    from pybufrkit.decoder import Decoder
+    from harness import xversion
+    cat = xversion.Catalogue()
+    nf = 40 if ctx.tier == 'quick' else 160
+    fams, problems, stats = xversion.build_families(ctx.driver, ctx.rng('xv'), nf, cat=cat)
+    for k, v in sorted(cat.summary().items()):
+        if isinstance(v, dict):
+            for kk, vv in v.items():
+                ctx.count('tables:%s:%s' % (k, kk), vv)
+        else:
+            ctx.count('tables:' + k, v)
+    for k, v in sorted(stats.items()):
+        ctx.count('xv:' + k, v)
+    for f, m, why in problems:
+        ctx.violation('cross-version family %s (%s over %s, table group %s): %s (ids %s)' % (f['name'], f['shape'], f['E'], m['group'], why, f['ids']),
+                      {'mode': 'xv-model', 'ids': f['ids'], 'group': m['group'], 'json': m.get('json')},
+                      signature={'kind': 'xv-fresh-vs-model', 'shape': f['shape'], 'what': why.split(':')[0]})
+    xv, expect = [], {}
+    crng = ctx.rng('xv-cuts')
+    from harness import coder_io
+    for f in fams:
+        ent = {'name': f['name'], 'shape': f['shape'], 'E': f['E'], 'class': f['class'], 'ids': f['ids'], 'msgs': [], 'jsons': [], 'cuts': []}
+        for m in f['members']:
+            name = '%s@%s' % (f['name'], m['group'])
+            # the same message cut somewhere inside its data section: the decode dies half way through the template, with
+            # whatever operators are in force there (associated-field stack, 201/202/207/208 registers, new reference values,
+            # a half-defined bit-map) left in the coder state of that message
+            try:
+                pos, n = coder_io.locate_sections(m['bytes'])[4]
+                if n > 5:
+                    cut = pos + 4 + crng.randrange(0, n - 4)
+                    cname = '%s!cut%d' % (name, cut - pos - 4)
+                    msgs.append({'name': cname, 'cls': 'xv-damaged', 'hex': m['bytes'][:cut].hex()})
+                    ent['cuts'].append(cname)
+            except Exception:  # noqa
+                pass
+            msgs.append({'name': name, 'cls': 'xv', 'hex': m['bytes'].hex()})
+            jsons.append({'name': name + '.json', 'cls': 'xv', 'text': m['json']})
+            ent['msgs'].append(name)
+            ent['jsons'].append(name + '.json')
+            try:
+                expect[name] = obs_message(Decoder().process(m['bytes'], wire_template_data=False))
+            except Exception as e:  # noqa
+                expect[name] = core.err_tag(e)
+            ctx.traces += 2            # fresh encode + fresh decode of this member compared with the model
+        ctx.count('xv:shape:' + f['shape'])
+        ctx.count('xv:change:' + f['class'])
+        xv.append(ent)
+    return xv, expect
 
 
 _POOL = None
@@ -363,7 +452,32 @@ class Runner(object):
         self.tables = tables
         self.log = []          # table cache requests: (key, outcome, keys after)
         self.clog = []         # compiled cache requests: (coder, key, outcome, keys after)
+        # every stage event in order (for the correspondence with the session model): ('t', key, tag) table-group request,
+        # ('b', tag) build_template, ('c', coder, key, tag) compiled-template request, ('w', tag) TemplateData.wire,
+        # ('p', tag) Decoder/Encoder.process as a whole
+        self.elog = []
         runner = self
+
+        def logged_method(cls, name, kind):
+            orig = getattr(cls, name)
+            if getattr(orig, '_c13_logged', False):
+                orig = orig._c13_orig
+
+            def wrapper(self_, *a, **kw):
+                tag = 'ok'
+                try:
+                    return orig(self_, *a, **kw)
+                except BaseException as e:
+                    tag = core.err_tag(e)
+                    raise
+                finally:
+                    runner.elog.append((kind, tag))
+            wrapper._c13_logged = True
+            wrapper._c13_orig = orig
+            setattr(cls, name, wrapper)
+        from pybufrkit import bufr as _bufr, templatedata as _td
+        logged_method(_bufr.BufrMessage, 'build_template', 'b')
+        logged_method(_td.TemplateData, 'wire', 'w')
 
         class LoggingCache(tables.TableGroupCache):
             def get(self, key):
@@ -375,6 +489,7 @@ class Runner(object):
                     raise
                 finally:
                     runner.log.append((key_str(key), tag, [key_str(k) for k in self._groups], tables.MAXIMUM_NUMBER_OF_CACHED_TABLE_GROUPS))
+                    runner.elog.append(('t', key_str(key), tag))
 
             def invalidate(self):
                 tables.TableGroupCache.invalidate(self)
@@ -386,6 +501,9 @@ class Runner(object):
         self.coders = {}
         self.objs = {}
         self.fresh_fp = {}
+        # renderer / querent / parser objects an application keeps: one per (class, slot), re-used for every view of the
+        # history that names the slot (`ro` of the operation; -1 = a new object for this view only)
+        self.viewers = {}
 
     def audit(self):
         """the table groups held by the process-wide cache still equal a fresh load of their keys (no cached
@@ -431,15 +549,39 @@ class Runner(object):
                     finally:
                         runner.clog.append((_name, ckey_str((tuple(template.original_descriptor_ids), table_group.key)),
                                             tag, [ckey_str(k) for k in _mgr.cache], _mgr.cache_max))
+                        runner.elog.append(('c', _name, ckey_str((tuple(template.original_descriptor_ids), table_group.key)), tag))
                 mgr.get_or_compile = logged
             self.coders[k] = c
         return c
 
     def process(self, src, cfg, m, wire):
         c = self.coder(src, cfg)
-        if src == 'dec':
-            return c.process(self.pool['msgs'][m], wire_template_data=wire)
-        return c.process(self.pool['jsons'][m], wire_template_data=wire)
+        tag = 'ok'
+        try:
+            if src == 'dec':
+                return c.process(self.pool['msgs'][m], wire_template_data=wire)
+            return c.process(self.pool['jsons'][m], wire_template_data=wire)
+        except BaseException as e:
+            tag = core.err_tag(e)
+            raise
+        finally:
+            self.elog.append(('p', tag))
+
+    def snapshot(self):
+        """what the session model keeps as state: keys of the table-group cache, keys of every coder's compiled-template
+        cache, the message objects the caller holds with their wire-once flag"""
+        cache = self.tables.TableGroupCacheManager._TABLE_GROUP_CACHE
+        objs = []
+        for (src, cfg, m), msg in self.objs.items():
+            try:
+                wired = bool(msg.template_data.value._is_wired)
+            except Exception:  # noqa
+                wired = None
+            objs.append([src, cfg, m, wired])
+        return {'tables': [key_str(k) for k in cache._groups],
+                'compiled': {'%s:%s' % k: [ckey_str(x) for x in c.compiled_template_manager.cache]
+                             for k, c in self.coders.items() if c.compiled_template_manager is not None},
+                'objs': sorted(objs, key=repr)}
 
     def obtain(self, src, cfg, m):
         k = (src, cfg, m)
@@ -461,7 +603,19 @@ class Runner(object):
         if k == 'view':
             msg = self.obtain(op['src'], op['c'], op['m'])
             msg.wire()
-            return self.view(msg, op['v'])
+            return self.view(msg, op['v'], op.get('ro', -1))
+        if k == 'drop':
+            # the caller lets go of message objects (all, or the one named) and the garbage collector runs: everything only
+            # they kept alive (per-message descriptors, nodes, with an evicted table group its Table B/D objects) is freed
+            # and its id() can come back on a later object
+            if op.get('m') is None:
+                self.objs.clear()
+            else:
+                self.objs.pop((op['src'], op['c'], op['m']), None)
+            msg = None
+            import gc
+            gc.collect()
+            return 'done'
         if k == 'scan':
             from pybufrkit.decoder import generate_bufr_message
             out = []
@@ -479,22 +633,31 @@ class Runner(object):
             return 'done'
         raise ValueError('bad op %r' % (op,))
 
-    def view(self, msg, v):
+    def viewer(self, what, ro, make):
+        if ro is None or ro < 0:
+            return make()
+        o = self.viewers.get((what, ro))
+        if o is None:
+            o = self.viewers[(what, ro)] = make()
+        return o
+
+    def view(self, msg, v, ro=-1):
         from pybufrkit import renderer
         if v[0] == 'r':
             cls = {'flat_text': renderer.FlatTextRenderer, 'nested_text': renderer.NestedTextRenderer,
                    'flat_json': renderer.FlatJsonRenderer, 'nested_json': renderer.NestedJsonRenderer}[v[1]]
-            r = cls().render(msg)
+            r = self.viewer(v[1], ro, cls).render(msg)
             return {'len': len(r), 'dig': dig(r)}
         if v[0] == 'q':
             from pybufrkit.dataquery import DataQuerent, NodePathParser
-            res = DataQuerent(NodePathParser()).query(msg, v[1])
+            res = self.viewer('querent', ro, lambda: DataQuerent(NodePathParser())).query(msg, v[1])
             vals = [(i, res.get_values(i)) for i in res.subset_indices()]
             return {'n': len(vals), 'dig': dig(vals), 'flat': dig(res.all_values(flat=True)),
-                    'text': dig(renderer.FlatTextRenderer().render(res))}
+                    'text': dig(self.viewer('flat_text', ro, renderer.FlatTextRenderer).render(res))}
         if v[0] == 'md':
             from pybufrkit.mdquery import MetadataQuerent, MetadataExprParser
-            return {'md': dig(MetadataQuerent(MetadataExprParser()).query(msg, v[1]))}
+            q = self.viewer('mdquerent', ro, lambda: MetadataQuerent(MetadataExprParser()))
+            return {'md': dig(q.query(msg, v[1]))}
         raise ValueError('bad view %r' % (v,))
 
 
@@ -507,22 +670,206 @@ def run_history(task):
     pool = load_pool(task['pool'])
     r = Runner(pool, task.get('limit'))
     out = []
+    st = []
     audit = None
     for i, op in enumerate(task['ops']):
+        n0 = len(r.elog)
         try:
             out.append(r.do(op))
         except Exception as e:
             out.append(core.err_tag(e))
+        st.append({'ev': [list(e) for e in r.elog[n0:]], 'snap': r.snapshot()})
         if audit is None and task.get('audit', True):
             a = r.audit()
             if a:
                 audit = (i, a)
-    return {'out': out, 'log': r.log, 'clog': r.clog, 'audit': audit}
+    return {'out': out, 'log': r.log, 'clog': r.clog, 'audit': audit, 'st': st}
 
 
 def run_fresh(task):
-    """one operation as the first thing a fresh interpreter does (default cache limit)"""
-    return run_history({'pool': task['pool'], 'limit': None, 'ops': [task['op']]})['out'][0]
+    """one operation as the first thing a fresh interpreter does (default cache limit) -> (output, stage events)"""
+    res = run_history({'pool': task['pool'], 'limit': None, 'ops': [task['op']]})
+    return res['out'][0], res['st'][0]['ev']
+
+
+# ---------------------------------------------------------------------------------------------
+# correspondence with the session model (lean/BufrModel/Msg/Session.lean, driver op `session`)
+def stage_of(ev, failed):
+    """the stage at which the decode / encode inside one operation gave up, from its events (None: it did not)"""
+    if not any(e[0] == 'p' for e in ev):
+        return None                          # nothing was decoded / encoded (the object was kept)
+    ptag = [e for e in ev if e[0] == 'p'][0][1]
+    if ptag == 'ok':
+        return None
+    if any(e[0] == 't' and e[2] != 'ok' for e in ev):
+        return 'tables'
+    if not any(e[0] in 'tb' for e in ev):
+        return 'header'
+    if any(e[0] == 'b' and e[1] != 'ok' for e in ev):
+        return 'build'
+    if any(e[0] == 'c' and e[3] != 'ok' for e in ev):
+        return 'compile'
+    if any(e[0] == 'w' and e[1] != 'ok' for e in ev):
+        return 'wire'
+    return 'data'
+
+
+class Names(object):
+    def __init__(self):
+        self.d = {}
+
+    def __call__(self, x):
+        return self.d.setdefault(x, len(self.d))
+
+
+def session_request(limit, ops, res, facts):
+    """One real history -> the request for the driver op `session` + what to compare.
+    facts: per input (src, m) what the REFERENCE runs (the operation alone in a fresh interpreter) showed: the table group it
+    asks for, the descriptor-list part of its compiled-template key, the stage at which it fails, whether wiring / a view
+    fails.  The model is told these (its coder is abstract) and predicts every output class, failing stage, cache content
+    and kept object of the history."""
+    coders, inputs, tkeys, tids, views, viewers = Names(), Names(), Names(), Names(), Names(), Names()
+    inp_rows = {}
+    fail = {'load': set(), 'build': set(), 'compile': set(), 'data': set(), 'wire': set(), 'view': set()}
+    cache_max = {}
+
+    def coder(src, cfg):
+        c = coders((src, cfg))
+        cache_max[c] = cfg
+        return c
+
+    def inp(src, m):
+        i = inputs((src, m))
+        if i not in inp_rows:
+            f = facts.get((src, m), {})
+            k = tkeys(f['tkey']) if f.get('tkey') is not None else None
+            t = tids(f.get('ids') if f.get('ids') is not None else ('#', src, m))
+            inp_rows[i] = [k, t, src == 'enc']
+            stg = f.get('stages', set())
+            if 'tables' in stg and k is not None:
+                fail['load'].add(k)
+            if 'build' in stg:
+                fail['build'].add((k, t))
+            if 'compile' in stg:
+                fail['compile'].add((k, t))
+            if 'data' in stg:
+                fail['data'].add(i)
+            if 'wire' in stg:
+                fail['wire'].add(i)
+        return i
+    mops, last = [], []        # model operations; index of the last model operation of every real operation (None: not modelled)
+    fresh_viewer = [10 ** 6]
+    for op, o, st in zip(ops, res['out'], res['st']):
+        k = op['k']
+        if k == 'proc':
+            mops.append(['proc', coder(op['src'], op['c']), inp(op['src'], op['m']), bool(op['wire'])])
+        elif k == 'wire':
+            mops.append(['wire', coder(op['src'], op['c']), inp(op['src'], op['m'])])
+        elif k == 'view':
+            ro = op.get('ro', -1)
+            if ro < 0:
+                fresh_viewer[0] += 1
+                r = fresh_viewer[0]
+            else:
+                r = viewers((op['v'][0] if op['v'][0] != 'r' else op['v'][1], ro))
+            i = inp(op['src'], op['m'])
+            v = views(json.dumps(op['v']))
+            if facts.get((op['src'], op['m']), {}).get('viewfail', {}).get(json.dumps(op['v'])):
+                fail['view'].add((v, i))
+            mops.append(['view', r, coder(op['src'], op['c']), i, v])
+        elif k == 'drop':
+            mops.append(['dropall'] if op.get('m') is None else ['drop', coder(op['src'], op['c']), inp(op['src'], op['m'])])
+        elif k == 'inval':
+            mops.append(['invalidate'])
+        elif k == 'limit':
+            mops.append(['limit', op['n']])
+        elif k == 'tg':
+            tev = [e for e in st['ev'] if e[0] == 't']
+            if len(tev) != 1:
+                return None
+            kk = tkeys(tev[0][1])
+            if tev[0][2] != 'ok':
+                fail['load'].add(kk)
+            mops.append(['tables', kk])
+        elif k == 'scan':
+            # a scan decodes the messages of a file one after the other and keeps none: for the state of the caches it is a
+            # sequence of decodes that stop after compilation; their outputs are not compared
+            c = coder('dec', op['c'])
+            ev = st['ev']
+            j = 0
+            while j < len(ev):
+                if ev[j][0] == 't':
+                    kk = tkeys(ev[j][1])
+                    if ev[j][2] != 'ok':
+                        fail['load'].add(kk)
+                    ids = None
+                    jj = j + 1
+                    while jj < len(ev) and ev[jj][0] != 't':
+                        if ev[jj][0] == 'c':
+                            ids = ev[jj][2].split('|')[0]
+                            if ev[jj][3] != 'ok':
+                                fail['compile'].add((kk, tids(ids)))
+                        jj += 1
+                    i = inputs(('scan', len(inputs.d)))
+                    t = tids(ids if ids is not None else ('#scan', i))
+                    inp_rows[i] = [kk, t, False]
+                    fail['data'].add(i)
+                    mops.append(['proc', c, i, False])
+                    j = jj
+                else:
+                    j += 1
+            last.append(('scan', len(mops) - 1))
+            continue
+        else:
+            return None
+        last.append((k, len(mops) - 1))
+    ncod = len(coders.d)
+    req = {'op': 'session', 'limit': 50 if limit is None else limit,
+           'cache_max': [cache_max.get(c) for c in range(ncod)],
+           'inputs': [inp_rows[i] for i in range(len(inputs.d))],
+           'fail_load': sorted(fail['load']), 'fail_build': sorted(map(list, fail['build'])), 'fail_compile': sorted(map(list, fail['compile'])),
+           'fail_data': sorted(fail['data']), 'fail_wire': sorted(fail['wire']), 'fail_view': sorted(map(list, fail['view'])),
+           'ops': mops}
+    return req, last, {'coders': coders.d, 'inputs': inputs.d, 'tkeys': tkeys.d, 'tids': tids.d}
+
+
+def compare_session(ops, res, last, names, m):
+    """-> description of the first disagreement between the real history and the model's session, or None"""
+    if not m.get('refines'):
+        return 'refines', 'the model run of this history does not equal its own stateless specification (theorem C13_session_refines_stateless_spec violated by the driver?)'
+    tk = {v: k for k, v in names['tkeys'].items()}
+    ti = {v: k for k, v in names['tids'].items()}
+    ci = {v: k for k, v in names['coders'].items()}
+    ii = {v: k for k, v in names['inputs'].items()}
+    for n, (op, o, st, (kind, j)) in enumerate(zip(ops, res['out'], res['st'], last)):
+        if j < 0:
+            continue
+        where = 'operation %d (%s on %s)' % (n, kind_str(op), op.get('m') or op.get('f') or op.get('v') or '')
+        if kind != 'scan':
+            iok = not (isinstance(o, str) and o.startswith('err'))
+            mok = m['out'][j] != 'err'
+            if iok != mok:
+                return 'outcome', '%s: implementation %s, model %s' % (where, 'succeeds' if iok else 'fails (%s)' % o, m['out'][j])
+        if kind == 'proc':
+            istage = stage_of(st['ev'], None)
+            if istage != m['stage'][j]:
+                return 'stage', '%s: fails at stage %s, the model (stage = a function of the input) says %s' % (where, istage, m['stage'][j])
+        snap = st['snap']
+        mt = [tk[x] for x in m['tables'][j]]
+        if snap['tables'] != mt:
+            return 'tables', '%s: table-group cache holds %s, model %s' % (where, snap['tables'], mt)
+        for c, keys in enumerate(m['compiled'][j]):
+            src, cfg = ci[c]
+            if cfg is None:
+                continue
+            mk = ['%s|%s' % (ti[t], tk[k]) for t, k in keys]
+            ik = snap['compiled'].get('%s:%s' % (src, cfg), [])
+            if ik != mk:
+                return 'compiled', '%s: compiled-template cache of %s:%s holds %s, model %s' % (where, src, cfg, ik, mk)
+        mo = sorted(([ci[c][0], ci[c][1], ii[i][1], w] for c, i, w in m['objs'][j]), key=repr)
+        if snap['objs'] != mo:
+            return 'objs', '%s: the caller holds %s, model %s' % (where, snap['objs'], mo)
+    return None
 
 
 # ---------------------------------------------------------------------------------------------
@@ -612,7 +959,13 @@ def run_compiled_case(case):
         except Exception as e:
             out.append(core.err_tag(e))
         # the key also carries the generation of the in-stream table entries (constant here: no table-definition message)
-        klists.append([kidx.get((k[0], k[1]), -1) for k in mgr.cache])
+        def _idx(k):
+            # a key of another shape than (descriptor ids, table group key, ...) is a key the model does not have
+            try:
+                return kidx.get((k[0], k[1]), -1)
+            except Exception:  # noqa
+                return -1
+        klists.append([_idx(k) for k in mgr.cache])
     return {'out': out, 'keys': klists, 'bad': bad}
 
 
@@ -656,12 +1009,40 @@ def op_key(op):
     return json.dumps(op, sort_keys=True)
 
 
+def ref_key(op):
+    """key of the reference run (the operation alone in a fresh interpreter): which renderer / querent object of the
+    history serves a view (`ro`) makes no difference there, dropping objects neither"""
+    if op['k'] == 'drop':
+        return json.dumps({'k': 'drop'})
+    if 'ro' in op:
+        op = {k: v for k, v in op.items() if k != 'ro'}
+    return json.dumps(op, sort_keys=True)
+
+
 def kind_str(op):
     if op['k'] == 'view':
-        return 'view:%s' % (op['v'][1] if op['v'][0] == 'r' else op['v'][0])
+        return 'view:%s%s' % (op['v'][1] if op['v'][0] == 'r' else op['v'][0], '' if op.get('ro', -1) < 0 else ':kept-object')
     if op['k'] == 'proc':
         return op['src'] + (':wired' if op['wire'] else ':unwired')
     return op['k']
+
+
+COMMON = []    # query paths asked of EVERY message (set per run from the pool: its most frequent descriptors)
+
+
+def common_paths(pool):
+    """a handful of path expressions built from the descriptors that occur in most messages of the pool: the SAME request
+    string then reaches a kept querent for many different messages (different numbers of subsets, different values)"""
+    freq = {}
+    for m, ps in pool['paths'].items():
+        for p in set(ps):
+            if len(p) == 6 and p.isdigit():
+                freq[p] = freq.get(p, 0) + 1
+    top = [p for p, _ in sorted(freq.items(), key=lambda x: (-x[1], x[0]))[:2]]
+    out = ['/999999']
+    if top:
+        out += [top[0], '@[0] > %s' % top[0], '@[::2] > %s[0]' % top[-1]]
+    return out
 
 
 def gen_view(rng, paths, hrng=None):
@@ -671,7 +1052,7 @@ def gen_view(rng, paths, hrng=None):
     if r < 0.55:
         return ['r', rng.choice(RENDERERS)]
     if r < 0.85 and paths:
-        return ['q', rng.choice(paths)]
+        return ['q', rng.choice(COMMON) if COMMON and rng.random() < 0.4 else rng.choice(paths)]
     return ['md', rng.choice(MD_EXPRS[:4])]
 
 
@@ -699,8 +1080,22 @@ def gen_history(rng, pool, n, versions, heavy):
     cfgs = cfgs_h
     ops = []
     recent = []
+
+    def ro():
+        # which renderer / querent object serves the view: mostly the ones the history keeps (two sets), sometimes a new one
+        return rng.choice([0, 0, 0, 1, -1])
     while len(ops) < n:
         r = rng.random()
+        if recent and r < 0.03:
+            # the caller lets go of message objects; the garbage collector runs
+            if rng.random() < 0.5:
+                ops.append({'k': 'drop'})
+                recent = []
+            else:
+                src, c, m = recent.pop(rng.randrange(len(recent)))
+                ops.append({'k': 'drop', 'src': src, 'c': c, 'm': m})
+                recent = [x for x in recent if x != (src, c, m)]
+            continue
         if recent and r < 0.30:
             # come back to an object handled a few operations ago: re-render / re-query / re-wire / re-decode
             src, c, m = rng.choice(recent[-6:])
@@ -710,7 +1105,7 @@ def gen_history(rng, pool, n, versions, heavy):
             elif rr < 0.25:
                 ops.append({'k': 'wire', 'src': src, 'c': c, 'm': m})
             else:
-                ops.append({'k': 'view', 'src': src, 'c': c, 'm': m, 'v': gen_view(rng, pool['paths'].get(m, []))})
+                ops.append({'k': 'view', 'src': src, 'c': c, 'm': m, 'v': gen_view(rng, pool['paths'].get(m, [])), 'ro': ro()})
             continue
         if r < 0.62:
             m = rng.choice(mine)
@@ -720,7 +1115,7 @@ def gen_history(rng, pool, n, versions, heavy):
         elif r < 0.74:
             m = rng.choice(mine)
             c = pick(m)
-            ops.append({'k': 'view', 'src': 'dec', 'c': c, 'm': m, 'v': gen_view(rng, pool['paths'].get(m, []))})
+            ops.append({'k': 'view', 'src': 'dec', 'c': c, 'm': m, 'v': gen_view(rng, pool['paths'].get(m, [])), 'ro': ro()})
             recent.append(('dec', c, m))
         elif r < 0.86:
             m = rng.choice(myj)
@@ -730,7 +1125,7 @@ def gen_history(rng, pool, n, versions, heavy):
         elif r < 0.90:
             m = rng.choice(myj)
             c = pick(m)
-            ops.append({'k': 'view', 'src': 'enc', 'c': c, 'm': m, 'v': ['r', rng.choice(RENDERERS)]})
+            ops.append({'k': 'view', 'src': 'enc', 'c': c, 'm': m, 'v': ['r', rng.choice(RENDERERS)], 'ro': ro()})
             recent.append(('enc', c, m))
         elif r < 0.93:
             ops.append({'k': 'scan', 'c': rng.choice(cfgs), 'f': rng.choice([f['name'] for f in pool['files'] if f['name'] != 'asr3_190.bufr'] if rng.random() < 0.8 else [f['name'] for f in pool['files']])})
@@ -740,6 +1135,124 @@ def gen_history(rng, pool, n, versions, heavy):
             ops.append({'k': 'inval'})
         else:
             ops.append({'k': 'limit', 'n': rng.choice([1, 2, 3])})
+    return ops
+
+
+XV_CFGS = [None, 1, 50]
+
+
+def xv_views(rng, pool, m):
+    """the views asked of a cross-version message: few kinds, so that the same request recurs across histories"""
+    ps = pool['paths'].get(m, [])
+    r = rng.random()
+    if r < 0.45:
+        return ['r', 'flat_text']
+    if r < 0.60:
+        return ['r', 'nested_text']
+    if r < 0.75:
+        return ['r', 'nested_json']
+    if r < 0.80:
+        return ['r', 'flat_json']
+    if ps:
+        return ['q', rng.choice(COMMON) if COMMON and rng.random() < 0.5 else ps[rng.randrange(min(2, len(ps)))]]
+    return ['md', MD_EXPRS[2]]
+
+
+def gen_xv_history(rng, pool, n_other, versions, heavy):
+    """ONE Decoder and ONE Encoder object (one compiled-template configuration for the whole history) and one set of
+    renderer / querent objects over 1-3 cross-version families: the members of a family - the same descriptors under
+    table groups that define one of them differently - are decoded / encoded one after the other, in changing order,
+    several times, and rendered / queried in between; some random other traffic is mixed in."""
+    fams = rng.sample(pool['xv'], min(len(pool['xv']), rng.randint(1, 3)))
+    c = rng.choice(XV_CFGS)
+    core_ops = []
+    for _ in range(rng.randint(2, 4)):
+        rng.shuffle(fams)
+        for f in fams:
+            order = list(range(len(f['msgs'])))
+            rng.shuffle(order)
+            if rng.random() < 0.4:
+                order = order + order[:1]
+            for k in order:
+                r = rng.random()
+                if r < 0.7:
+                    m = f['msgs'][k]
+                    if f.get('cuts') and rng.random() < 0.35:
+                        # a decode that dies inside the data section first (of this family or of another one of the history)
+                        core_ops.append({'k': 'proc', 'src': 'dec', 'c': c, 'm': rng.choice(rng.choice(fams).get('cuts') or f['cuts']), 'wire': True})
+                    core_ops.append({'k': 'proc', 'src': 'dec', 'c': c, 'm': m, 'wire': True})
+                    for _ in range(rng.choice([0, 1, 1, 2])):
+                        core_ops.append({'k': 'view', 'src': 'dec', 'c': c, 'm': m, 'v': xv_views(rng, pool, m), 'ro': 0})
+                    if rng.random() < 0.3:
+                        core_ops.append({'k': 'drop'})
+                else:
+                    m = f['jsons'][k]
+                    core_ops.append({'k': 'proc', 'src': 'enc', 'c': c, 'm': m, 'wire': True})
+                    if rng.random() < 0.4:
+                        core_ops.append({'k': 'view', 'src': 'enc', 'c': c, 'm': m, 'v': ['r', rng.choice(['flat_text', 'nested_text'])], 'ro': 0})
+    other = gen_history(rng, pool, n_other, versions, heavy) if n_other else []
+    # the other traffic is spliced in blocks between the operations of the families (their order is kept)
+    ops = []
+    cuts = sorted(rng.randrange(len(core_ops) + 1) for _ in range(4)) if other else []
+    blocks = [other[i * len(other) // 4:(i + 1) * len(other) // 4] for i in range(4)] if other else []
+    for i, op in enumerate(core_ops):
+        while cuts and cuts[0] == i:
+            cuts.pop(0)
+            ops.extend(blocks.pop(0))
+        ops.append(op)
+    for b in blocks:
+        ops.extend(b)
+    return ops
+
+
+def gen_stream_history(rng, pool, n_msgs):
+    """A program that converts a stream of messages: one Decoder, one renderer of each kind, one querent; every message is
+    decoded, rendered, queried and DROPPED (garbage collected) before the next one is looked at, so that the addresses of
+    its per-message objects (associated-field / marker / skipped descriptors, nodes, with a small table cache the Table B
+    descriptors of an evicted group) are handed to the objects of later messages."""
+    c = rng.choice([None, None, 50])
+    # messages with many per-message descriptor objects: cross-version families (associated fields, markers), the
+    # synthetic operator templates, real messages with local tables / bit-maps
+    names = [m for f in pool['xv'] if f['shape'] in ('wide-assoc', 'assoc', 'marker', 'chain', 'qa222', 'seq') for m in f['msgs']]
+    names += [m['name'] for m in pool['msgs'] if m['cls'] == 'synthetic' and m['name'] != 'syn_f11_203']
+    few = rng.sample(names, min(len(names), rng.randint(2, 6)))
+    # whole families: their members answer to the same path expressions
+    for f in rng.sample(pool['xv'], min(len(pool['xv']), rng.randint(1, 2))):
+        few += [m for m in f['msgs'] if m not in few]
+    rng.shuffle(few)
+    kinds = rng.choice([['flat_text'], ['flat_text'], ['flat_text', 'nested_text'], ['nested_text', 'nested_json'], ['flat_text', 'flat_json']])
+    ops = []
+    cuts = [x for f in pool['xv'] for x in f.get('cuts', [])]
+    for i in range(n_msgs):
+        m = few[i % len(few)] if rng.random() < 0.85 else rng.choice(names)
+        if cuts and rng.random() < 0.15:
+            ops.append({'k': 'proc', 'src': 'dec', 'c': c, 'm': rng.choice(cuts), 'wire': True})     # dies in the data section
+        ops.append({'k': 'proc', 'src': 'dec', 'c': c, 'm': m, 'wire': True})
+        for kd in kinds:
+            ops.append({'k': 'view', 'src': 'dec', 'c': c, 'm': m, 'v': ['r', kd], 'ro': 0})
+        if rng.random() < 0.6:
+            ps = pool['paths'].get(m, [])
+            if ps or COMMON:
+                ops.append({'k': 'view', 'src': 'dec', 'c': c, 'm': m, 'ro': 0,
+                            'v': ['q', rng.choice(COMMON) if COMMON and (not ps or rng.random() < 0.6) else ps[0]]})
+        ops.append({'k': 'drop'})
+    return ops
+
+
+def gen_query_stream(rng, pool, n_msgs):
+    """The tightest loop: one Decoder, one querent, ONE path expression; the members of one family are decoded, queried and
+    dropped in turn, nothing else is allocated in between - so that the message objects themselves (not only their
+    descriptors) come back at the addresses of their dead predecessors."""
+    f = rng.choice(pool['xv'])
+    ms = list(f['msgs'])
+    p = rng.choice(COMMON + pool['paths'].get(ms[0], [])[:2])
+    c = rng.choice([None, 50])
+    ops = []
+    for i in range(n_msgs):
+        m = ms[i % len(ms)] if rng.random() < 0.8 else rng.choice(ms)
+        ops.append({'k': 'proc', 'src': 'dec', 'c': c, 'm': m, 'wire': True})
+        ops.append({'k': 'view', 'src': 'dec', 'c': c, 'm': m, 'v': ['q', p] if rng.random() < 0.9 else ['md', MD_EXPRS[0]], 'ro': 0})
+        ops.append({'k': 'drop'})
     return ops
 
 
@@ -793,7 +1306,7 @@ def check_cache_level(ctx, mp, rng):
 def signature_of(ops, idx, pool_cls):
     op = ops[idx]
     same = any(o.get('m') == op.get('m') and o.get('c') == op.get('c') and o.get('src') == op.get('src') for o in ops[:idx] if 'm' in o) if 'm' in op else False
-    return {'kind': 'history-dependence', 'op': kind_str(op), 'prefix': sorted({kind_str(o) for o in ops[:idx]}),
+    return {'kind': 'history-dependence', 'op': kind_str(op), 'prefix': sorted({kind_str(o) for o in ops[:idx] if o['k'] != 'drop'}),
             'input_class': pool_cls.get(op.get('m') or op.get('f'), '-'), 'same_object_before': same}
 
 
@@ -803,11 +1316,17 @@ def fails(mp, pool_path, limit, prefixes, final, ref):
     return [r['out'][-1] != ref for r in res]
 
 
+SHRINK_TRIALS = [int(os.environ.get('VERIF_C13_SHRINK', '360'))]     # trials left for this run (each is a history in a process of its own)
+
+
 def shrink(mp, pool_path, limit, prefix, final, ref, budget=120):
-    """delta debugging on the operations before the failing one (each trial in a fresh process)"""
+    """delta debugging on the operations before the failing one (each trial in a fresh process); the run as a whole
+    spends at most SHRINK_TRIALS trials, later failures are reported with the prefix as it is"""
     n = 2
     cur = list(prefix)
     used = 0
+    budget = min(budget, SHRINK_TRIALS[0])
+    SHRINK_TRIALS[0] -= budget
     while len(cur) >= 1 and used < budget:
         size = max(1, len(cur) // n)
         chunks = [cur[i:i + size] for i in range(0, len(cur), size)]
@@ -825,23 +1344,81 @@ def shrink(mp, pool_path, limit, prefix, final, ref, budget=120):
     return cur
 
 
-def evaluate_histories(ctx, mp, pool_path, pool, hists):
+def build_facts(distinct, refs, refev):
+    """what the reference runs show about every input: table group asked for, descriptor-list part of the compiled key,
+    failing stages, failing views (the inputs of the abstract coder of the session model)"""
+    facts = {}
+    for k, op in distinct.items():
+        if op['k'] not in ('proc', 'wire', 'view'):
+            continue
+        f = facts.setdefault((op['src'], op['m']), {'stages': set(), 'viewfail': {}, 'tkey': None, 'ids': None})
+        ev, out = refev[k], refs[k]
+        tev = [e for e in ev if e[0] == 't']
+        if tev and f['tkey'] is None:
+            f['tkey'] = tev[0][1]
+        cev = [e for e in ev if e[0] == 'c']
+        if cev and f['ids'] is None:
+            f['ids'] = cev[0][2].split('|')[0]
+        stg = stage_of(ev, None)
+        if stg:
+            f['stages'].add(stg)
+        elif isinstance(out, str) and out.startswith('err'):
+            if any(e[0] == 'w' and e[1] != 'ok' for e in ev):
+                f['stages'].add('wire')
+            elif op['k'] == 'view':
+                f['viewfail'][json.dumps(op['v'])] = True
+    return facts
+
+
+def session_correspondence(ctx, hists, results, distinct, refs, refev, pool_cls):
+    """every real history against the session model (driver op `session`): output class and failing stage of every
+    operation, keys of the table-group cache and of every coder's compiled-template cache, the message objects held and
+    their wire-once flags - after EVERY operation; plus the model's own refinement check on that history"""
+    facts = build_facts(distinct, refs, refev)
+    reqs, metas = [], []
+    for hi, ((limit, ops), res) in enumerate(zip(hists, results)):
+        sr = session_request(limit, ops, res, facts)
+        if sr is None:
+            ctx.count('session:histories not expressible in the model')
+            continue
+        reqs.append(sr[0])
+        metas.append((hi, sr))
+    if not reqs:
+        return
+    for (hi, (req, last, names)), m in zip(metas, ctx.driver.batch(reqs)):
+        ctx.traces += 1
+        ctx.count('session:histories compared with the model')
+        ctx.count('session:model operations', len(req['ops']))
+        for s in m['stage']:
+            if s:
+                ctx.count('session:failing stage:' + s)
+        why = compare_session(hists[hi][1], results[hi], last, names, m)
+        if why:
+            limit, ops = hists[hi]
+            ctx.violation('session model: history %d: %s' % (hi, why[1]), {'mode': 'history', 'limit': limit, 'ops': ops},
+                          signature={'kind': 'session-correspondence', 'what': why[0]})
+
+
+def evaluate_histories(ctx, mp, pool_path, pool, hists, kinds=None):
     """hists: list of (limit, ops).  Runs references (fresh interpreter per distinct op), the histories, compares."""
     pool_cls = {m['name']: m['cls'] for m in pool['msgs']}
     pool_cls.update({j['name']: j['cls'] for j in pool['jsons']})
+    kinds = kinds or ['random'] * len(hists)
     distinct = {}
     for limit, ops in hists:
         for op in ops:
-            distinct.setdefault(op_key(op), op)
+            distinct.setdefault(ref_key(op), json.loads(ref_key(op)))
     keys = sorted(distinct)
     import time
     t0 = time.time()
-    refs = dict(zip(keys, mp.map(run_fresh, [{'pool': pool_path, 'op': distinct[k]} for k in keys], chunksize=1)))
+    fres = mp.map(run_fresh, [{'pool': pool_path, 'op': distinct[k]} for k in keys], chunksize=1)
+    refs = {k: r[0] for k, r in zip(keys, fres)}
+    refev = {k: r[1] for k, r in zip(keys, fres)}
     # cross-check: a sample of the operations in interpreters started from scratch ('spawn')
     srng = ctx.rng('spawn-sample')
     sample = srng.sample(keys, min(len(keys), 96 if ctx.tier == 'quick' else 960))
     with multiprocessing.get_context('spawn').Pool(min(16, os.cpu_count() or 1), maxtasksperchild=1) as sp:
-        sres = sp.map(run_fresh, [{'pool': pool_path, 'op': distinct[k]} for k in sample], chunksize=1)
+        sres = [r[0] for r in sp.map(run_fresh, [{'pool': pool_path, 'op': distinct[k]} for k in sample], chunksize=1)]
     ctx.count('oracle:reference operations cross-checked in spawned interpreters', len(sample))
     for k, r in zip(sample, sres):
         if r != refs[k]:
@@ -849,16 +1426,34 @@ def evaluate_histories(ctx, mp, pool_path, pool, hists):
                           {'mode': 'history', 'limit': None, 'ops': [distinct[k]]}, signature={'kind': 'fresh-vs-fresh', 'op': kind_str(distinct[k])})
     t1 = time.time()
     ctx.count('oracle:distinct-operations (fresh interpreter each)', len(keys))
+    # the cross-version messages: what a fresh interpreter decodes = what the fresh Decoder of this process decoded when
+    # the pool was built (and that was compared with the model under the tables the message names)
+    for k in keys:
+        op = distinct[k]
+        if op['k'] == 'proc' and op['src'] == 'dec' and op['m'] in pool.get('expect', {}):
+            ctx.count('xv:fresh-interpreter decode = fresh object = model')
+            if refs[k] != pool['expect'][op['m']]:
+                ctx.violation('decoding %s first in a fresh interpreter gives %s, a fresh Decoder of the checking process gave %s (compared with the model)'
+                              % (op['m'], _short(refs[k]), _short(pool['expect'][op['m']])),
+                              {'mode': 'history', 'limit': None, 'ops': [op]}, signature={'kind': 'fresh-vs-parent', 'op': kind_str(op)})
     results = mp.map(run_history, [{'pool': pool_path, 'limit': limit, 'ops': ops} for limit, ops in hists], chunksize=1)
     ctx.notes.append('timing: %d reference operations in fresh interpreters %.1fs, %d histories %.1fs' % (len(keys), t1 - t0, len(hists), time.time() - t1))
+    session_correspondence(ctx, hists, results, distinct, refs, refev, pool_cls)
     logged = []
     for hi, ((limit, ops), res) in enumerate(zip(hists, results)):
+        ctx.count('oracle:histories:kind:' + kinds[hi])
+        xvm = [o['m'].split('@')[0] for o in ops if o['k'] == 'proc' and pool_cls.get(o.get('m')) == 'xv']
+        ctx.count('oracle:cross-version coder re-use (same family, another table group, same coder object)',
+                  sum(1 for a, b in zip(xvm, xvm[1:]) if a == b))
+        ctx.count('oracle:views through a kept renderer / querent object', sum(1 for o in ops if o['k'] == 'view' and o.get('ro', -1) >= 0))
+        ctx.count('oracle:drops (objects released, gc.collect())', sum(1 for o in ops if o['k'] == 'drop'))
         groups = {l[0] for l in res['log'] if l[0] != '#inval'}
         evictions = sum(1 for a, b in zip(res['log'], res['log'][1:]) if any(k not in b[2] for k in a[2]))
         revisit = len(ops) - len({op_key(o) for o in ops})
         nfail = sum(1 for o in res['out'] if isinstance(o, str) and o.startswith('err'))
         ctx.case({'limit': limit, 'n': len(ops), 'ops': dig(ops)},
-                 nontrivial=(evictions > 0 and revisit > 0 and nfail > 0 and len(groups) > (limit or 50) or (limit or 50) >= 50 and revisit > 0),
+                 nontrivial=(evictions > 0 and revisit > 0 and (nfail > 0 or kinds[hi] != 'random') and len(groups) > (limit or 50)
+                             or (limit or 50) >= 50 and revisit > 0),
                  sample=False)
         if hi < 3:
             ctx.samples.append({'limit': limit, 'n_ops': len(ops), 'first_ops': ops[:6], 'table_groups': len(groups), 'evictions': evictions})
@@ -877,7 +1472,7 @@ def evaluate_histories(ctx, mp, pool_path, pool, hists):
                           {'mode': 'history', 'limit': limit, 'ops': ops[:i + 1]},
                           signature={'kind': 'cached-group-mutated', 'op': kind_str(ops[i]), 'input_class': pool_cls.get(ops[i].get('m') or ops[i].get('f'), '-')})
         for i, (op, o) in enumerate(zip(ops, res['out'])):
-            ref = refs[op_key(op)]
+            ref = refs[ref_key(op)]
             if o != ref:
                 small = shrink(mp, pool_path, limit, ops[:i], op, ref)
                 sops = small + [op]
@@ -905,7 +1500,7 @@ def run(ctx):
     logging.disable(logging.CRITICAL)
     nproc = min(16, os.cpu_count() or 1)
     # pool of inputs
-    pool = build_pool()
+    pool = build_pool(ctx)
     cdir = os.path.join(core.VERIF, '.cache')
     os.makedirs(cdir, exist_ok=True)
     pool_path = os.path.join(cdir, 'c13_pool_%s.json' % dig(pool))
@@ -942,7 +1537,10 @@ def run(ctx):
         gpool = dict(pool, paths={m: prng.sample(ps, min(npaths, len(ps))) for m, ps in sorted(pool['paths'].items())},
                      cfgs={x['name']: (list(CFGS) if x['cls'] == 'synthetic' and 'hex' in x else prng.sample(CFGS, ncfg))
                            for x in pool['msgs'] + pool['jsons']})
-        nh = 60 if ctx.tier == 'quick' else 600
+        del COMMON[:]
+        COMMON.extend(common_paths(pool))
+        ctx.notes.append('query paths asked of every message: %s' % COMMON)
+        nh = 52 if ctx.tier == 'quick' else 600
         for i in range(nh):
             limit = rng.choice([1, 2, 3]) if (ctx.tier == 'quick' or i % 10) else 50
             n = rng.randint(20, 200)
@@ -956,7 +1554,27 @@ def run(ctx):
                 ops = ops[:cut] + pre + ops[cut:]
                 ops = [o for o in ops if o['k'] != 'limit']
             hists.append((limit, ops))
-        logged = evaluate_histories(ctx, mp, pool_path, pool, hists)
+        kinds = ['corpus'] * ncorpus + ['random'] * nh
+        # (c) cross-version histories: one Decoder / Encoder / renderer set over families that use the same descriptors
+        #     under table groups defining them differently
+        xrng = ctx.rng('xv-histories')
+        nx = 36 if ctx.tier == 'quick' else 300
+        for i in range(nx if gpool['xv'] else 0):
+            limit = xrng.choice([1, 2, 3, 3, 50])
+            ops = gen_xv_history(xrng, gpool, xrng.choice([0, 0, 12, 30]), versions, heavy)
+            if limit == 50:
+                ops = [o for o in ops if o['k'] != 'limit']
+            hists.append((limit, ops))
+            kinds.append('cross-version')
+        # (d) stream conversion: decode, render with kept renderer objects, drop, collect
+        srng = ctx.rng('stream-histories')
+        ns = 16 if ctx.tier == 'quick' else 160
+        for i in range(ns if gpool['xv'] else 0):
+            hists.append((srng.choice([1, 1, 2, 50]), gen_stream_history(srng, gpool, srng.randint(12, 40))))
+            kinds.append('stream')
+            hists.append((srng.choice([1, 3, 50]), gen_query_stream(srng, gpool, srng.randint(24, 48))))
+            kinds.append('query-stream')
+        logged = evaluate_histories(ctx, mp, pool_path, pool, hists, kinds)
     ctx.count('corpus:histories', ncorpus)
     # the logged cache traffic of the histories against the model
     compare_logs(ctx, logged, hists)
@@ -1019,6 +1637,8 @@ def replay(ctx, path):
     logging.disable(logging.CRITICAL)
     body = json.load(open(path))
     rp = body['replay']
+    if 'seed' in body:
+        ctx.seed = body['seed']      # the cross-version part of the pool is generated from the seed
     mp_ctx = multiprocessing.get_context('spawn')
     if rp.get('mode') == 'cache':
         c = rp['case']
@@ -1034,7 +1654,7 @@ def replay(ctx, path):
             ctx.violation('cache replay: implementation and model differ or content check failed: %r' % (r['bad'],), rp,
                           signature={'kind': 'cache-correspondence', 'cache': rp['kind']})
         return
-    pool = build_pool()
+    pool = build_pool(ctx)
     cdir = os.path.join(core.VERIF, '.cache')
     os.makedirs(cdir, exist_ok=True)
     pool_path = os.path.join(cdir, 'c13_pool_%s.json' % dig(pool))
